@@ -79,7 +79,7 @@ PROPS = {
     },
     'C03': {'layers': ['l2'], 'modelled_not_verified': ["database/sql conversion of Go values to driver values is applied by the harness translator (canonical value text), not modelled", "reflect is modelled by type descriptors and value trees produced by reflection over the compiled zoo types (translator in the trusted base)", "error identity under Go map iteration is not compared, only accept/reject (and insert/bulk family)"], 'assumptions': []},
     'C04': {'layers': ['l2', 'sqlite'], 'modelled_not_verified': ["database/sql conversion of Go values to driver values is applied by the harness translator (canonical value text), not modelled", "reflect is modelled by type descriptors and value trees produced by reflection over the compiled zoo types (translator in the trusted base)", "error identity under Go map iteration is not compared, only accept/reject (and insert/bulk family)"], 'assumptions': ["O2: provider order dependence outside the one-provider-per-column domain is reproduced literally"]},
-    'C05': {'layers': ['l2'], 'modelled_not_verified': ["database/sql conversion of Go values to driver values is applied by the harness translator (canonical value text), not modelled", "reflect is modelled by type descriptors and value trees produced by reflection over the compiled zoo types (translator in the trusted base)", "error identity under Go map iteration is not compared, only accept/reject (and insert/bulk family)"], 'assumptions': []},
+    'C05': {'layers': ['l2', 'l4'], 'modelled_not_verified': ["database/sql conversion of Go values to driver values is applied by the harness translator (canonical value text), not modelled", "reflect is modelled by type descriptors and value trees produced by reflection over the compiled zoo types (translator in the trusted base)", "error identity under Go map iteration is not compared, only accept/reject (and insert/bulk family)"], 'assumptions': []},
     'C06': {'layers': ['l3', 'l4'], 'modelled_not_verified': ["database/sql convertAssign / Scanner.Scan are a parameter `conv` answered per case by the installed database/sql (oracle)", "destinations are flattened field stores produced by the harness translator", "the state of a direct target whose conversion failed is unspecified"], 'assumptions': ["foreign columns are not of the exact form _sqlair_<n> (the library's reserved alias space)"]},
     'C07': {'layers': ['l2'], 'modelled_not_verified': ["database/sql conversion of Go values to driver values is applied by the harness translator (canonical value text), not modelled", "reflect is modelled by type descriptors and value trees produced by reflection over the compiled zoo types (translator in the trusted base)", "error identity under Go map iteration is not compared, only accept/reject (and insert/bulk family)"], 'assumptions': ["the executable bindTypes of the model is the specification of well-typedness"]},
     'C08': {'layers': ['l2'], 'modelled_not_verified': ["database/sql conversion of Go values to driver values is applied by the harness translator (canonical value text), not modelled", "reflect is modelled by type descriptors and value trees produced by reflection over the compiled zoo types (translator in the trusted base)", "error identity under Go map iteration is not compared, only accept/reject (and insert/bulk family)"], 'assumptions': ["the executable validateInputs/bindInputs of the model is the specification of acceptable argument lists"]},
@@ -242,8 +242,8 @@ NOT_CLAIMED_REASON = {}
 _P = 'SqlairProofs.Props.'
 PROP_MODULES = {
     'C01': [_P + 'Parser', _P + 'Bind', _P + 'E2E', _P + 'Exact', _P + 'L2Sound'], 'C02': [_P + 'C02', _P + 'Opaque', _P + 'L2Sound'], 'C19': [_P + 'Parser', _P + 'C19Shift'],
-    'C03': [_P + 'Bind', _P + 'L2Sound'], 'C04': [_P + 'Bind', _P + 'L2Sound'], 'C05': [_P + 'Bind', _P + 'L2Sound'], 'C07': [_P + 'Bind', _P + 'E2E', _P + 'Typed'], 'C08': [_P + 'Bind', _P + 'Typed'], 'C16': [_P + 'Bind'],
+    'C03': [_P + 'Bind', _P + 'L2Sound'], 'C04': [_P + 'Bind', _P + 'L2Sound', _P + 'L2Rows'], 'C05': [_P + 'Bind', _P + 'L2Sound'], 'C07': [_P + 'Bind', _P + 'E2E', _P + 'Typed'], 'C08': [_P + 'Bind', _P + 'Typed'], 'C16': [_P + 'Bind'],
     'C06': [_P + 'Scan'], 'C09': [_P + 'Cache', _P + 'L4Sound', _P + 'L5Sound'], 'C10': [_P + 'Cache', _P + 'L5Sound'], 'C11': [_P + 'Cache', _P + 'L5Sound'],
-    'C12': [_P + 'Runtime', _P + 'L4Sound'], 'C13': [_P + 'Runtime', _P + 'L4Sound'], 'C14': [_P + 'Runtime', _P + 'L4Sound'], 'C15': [_P + 'Runtime', _P + 'L4Sound'], 'C20': [_P + 'Runtime', _P + 'L4Sound'],
+    'C12': [_P + 'Runtime', _P + 'L4Sound'], 'C13': [_P + 'Runtime', _P + 'L4Sound'], 'C14': [_P + 'Runtime', _P + 'L4Sound', _P + 'L2Rows'], 'C15': [_P + 'Runtime', _P + 'L4Sound'], 'C20': [_P + 'Runtime', _P + 'L4Sound'],
     'C17': [_P + 'Store', _P + 'Bind', _P + 'Scan', _P + 'E2E'], 'C18': [_P + 'Parser', _P + 'Runtime', _P + 'NoPanic'],
 }
